@@ -53,6 +53,17 @@ def dict_copy_len(k: int) -> bool:
     return len(c) == k and len(c2) == k and list(c) == list(d) and (k == 0 or "k0" in c)
 
 
+def real_typeerror_twin(k: int) -> bool:
+    """
+    pre: 0 <= k <= 3
+    post: _
+    """
+    import re
+    if k == 2:
+        re.match("a", 5)          # a REAL TypeError ("expected string or bytes-like object, got 'int'"): must be reported, not skipped
+    return True
+
+
 def native_bitops(tier):
     """The decomposition used by the patch, run on concrete ints against CPython's own & and | (independent of the engine)."""
     from vf import chpatch
@@ -72,5 +83,7 @@ def conditions(tier):
         conds.append({"name": "and[%d]" % m, "fn": and_ok, "timeout": 60, "part": {"mask": m}, "bounds": "every int a, mask %d" % m})
         conds.append({"name": "or[%d]" % m, "fn": or_ok, "timeout": 60, "part": {"mask": m}, "bounds": "every int a, mask %d" % m})
     conds.append({"name": "and_twin", "fn": and_twin, "timeout": 60, "expect": "refute", "part": {"mask": 6}, "bounds": "reachability twin"})
+    conds.append({"name": "real_typeerror_twin", "fn": real_typeerror_twin, "timeout": 60, "expect": "refute",
+                  "bounds": "a concrete TypeError of the kind the engine's proxy-intolerance filter used to swallow is reported"})
     conds.append({"name": "dict_copy_len", "fn": dict_copy_len, "timeout": 60, "bounds": "dict() + copy() + len, 0..3 keys"})
     return conds
